@@ -258,7 +258,9 @@ impl Pwhash {
         for s in hashed_password.split('$') {
             if s.is_empty() {
                 // skip
-            } else if s.starts_with("argon2") {
+            } else if pwhash.type_.is_none() && s.starts_with("argon2") {
+                // the algorithm is the first named field; a later segment that happens
+                // to begin with "argon2" is base64 text (salt or hash)
                 match s {
                     "argon2i" => pwhash.type_ = Some(PasswordHashAlgorithm::Argon2i13),
                     "argon2id" => pwhash.type_ = Some(PasswordHashAlgorithm::Argon2id13),
